@@ -506,6 +506,14 @@ class NsWalk:
             if back != want and not self.tolerated:
                 self.report('detached-resolve', {'op': op, 'selector': seltext, 'own_namespaces': own, 'want': str(want)[:300], 'resolved': str(back)[:300]})
                 return False
+        # ---- what a rule says of itself (read before the sheet is serialised as a whole): resolved with the mapping of now
+        rule_level = []
+        for r in style_rules(sheet):
+            try:
+                rule_level.append((r, r.selectorText, rule_pairs(r)))
+            except Exception as e:
+                self.report('rule-level-text', {'op': op, 'what': 'selectorText raised', 'tb': core.short_tb(e)})
+                return False
         # ---- the serialisation re-resolves to the same pairs
         try:
             text = sheet.cssText
@@ -532,6 +540,25 @@ class NsWalk:
             self.report('reparse-pairs', {'op': op, 'outcome': outcome, 'text': text.decode('utf-8', 'replace')[:500], 'live': str(live)[:400], 'reparsed': str(back)[:400],
                                           'log': [m for m in cap.errors()][:3]})  # fmt: skip
             return False
+        # rule-level texts (taken above) under the current mapping; only where the sheet-level text was faithful, so that the recorded
+        # shapes are not reported a second time
+        if live == back and not self.tolerated:
+            ctx.count('oracle.rule-level-text')
+            for r, seltext, want in rule_level:
+                if not seltext:
+                    continue
+                try:
+                    sl = self.c.css.SelectorList()
+                    self.c.log.raiseExceptions = True
+                    sl.selectorText = (seltext, dict(mapping))
+                    got = [pairs_of(x) for x in sl]
+                except Exception as e:
+                    got = 'does not resolve: %s' % type(e).__name__
+                finally:
+                    core.canonical_state(self.c)
+                if got != want:
+                    self.report('rule-level-text', {'op': op, 'selectorText': seltext, 'resolves_to': str(got)[:300], 'rule_holds': str(want)[:300], 'mapping': mapping})
+                    return False
         ctx.seen([tuple(sorted(mapping.items())), op[0], outcome])
         return ok
 
